@@ -31,7 +31,7 @@ REQUIRED_WITNESSES = ["sizematcher-path-with-resize-and-pad", "centroid-near-bor
 
 def bounds(tier):
     n = 64 if tier == "quick" else 256
-    return {"H,W,max_h,max_w": f"[1,{n}]", "max_stride": [1, 2, 4, 8, 16, 32], "scale": ["1/4", "1/2", "3/4", "1", "3/2", "2"], "crop sizes": [3, 4, 8], "symbolic image": "2x3 pixels"}
+    return {"H,W,max_h,max_w": f"[1,{n}]", "max_stride": [1, 2, 4, 8, 16, 32], "scale": ["1/4", "1/2", "3/4", "1", "3/2", "2"], "crop sizes (h,w)": [[3, 3], [4, 4], [8, 8], [3, 5], [6, 4]], "symbolic image": "2x3 pixels"}
 
 
 def configs(tier, seed):
@@ -42,8 +42,8 @@ def configs(tier, seed):
     for sc in ("1/4", "1/2", "3/4", "1", "3/2", "2"):
         out.append(dict(kind="resize", N=n, scale=sc))
     out.append(dict(kind="padcontent"))
-    for crop in (3, 4, 8):
-        out.append(dict(kind="crops", crop=crop))
+    for crop in ((3, 3), (4, 4), (8, 8), (3, 5), (6, 4)):  # (height, width): square and non-square
+        out.append(dict(kind="crops", crop=list(crop)))
     for anchor in (0, None):
         out.append(dict(kind="recrop", anchor=anchor))
     out.append(dict(kind="cropsize"))
@@ -294,7 +294,7 @@ def _run_crops(cfg):
     ic.crop_and_resize = stubs.crop_and_resize_geometry
     ic.torch = T.TORCH_PROXY
     rep = Report(cfg)
-    crop = cfg["crop"]
+    ch_, cw_ = cfg["crop"]
     ex = Explorer([], timeout_ms=60000)
     cx, cy = z3.Real("cx"), z3.Real("cy")
     k = [z3.Real(n) for n in ("k0x", "k0y", "k1x", "k1y")]
@@ -305,23 +305,22 @@ def _run_crops(cfg):
             img = torch.zeros(1, 1, 8, 8)
             inst = T.tensor_of([XF(v) for v in k], (2, 2), torch.float32)
             cen = T.tensor_of([XF(cx), XF(cy)], (2,), torch.float32)
-            out = ic.generate_crops(img, inst, cen, (crop, crop))
+            out = ic.generate_crops(img, inst, cen, (ch_, cw_))
         return out, list(stubs.CROP_LOG)
 
     def extract(model, env):
         return {"centroid": [float(env["cx"]), float(env["cy"])], "instance": [[float(env["k0x"]), float(env["k0y"])], [float(env["k1x"]), float(env["k1y"])]]}
-    half = Fraction(crop, 2)
     for out, log in ex.run(path):
         rep.paths += 1
         rep.nontrivial_paths += 1
-        ok = len(log) == 1 and log[0]["size"] == (crop, crop) and tuple(out["instance_image"].shape[-2:]) == (crop, crop)
+        ok = len(log) == 1 and log[0]["size"] == (ch_, cw_) and tuple(out["instance_image"].shape[-2:]) == (ch_, cw_)
         rep.record("B3-one-crop-of-the-requested-size", "unsat" if ok else "sat")
         if not ok:
             continue
         b = log[0]["boxes"].values()  # (1,4,2): tl, tr, br, bl
         (tlx, tly, trx, try_, brx, bry, blx, bly) = [XF.of(v).v for v in b]
-        tl_ref_x, tl_ref_y = cx - xf.Q(half) + xf.Q(Fraction(1, 2)), cy - xf.Q(half) + xf.Q(Fraction(1, 2))
-        box = And(rcmp("==", tlx, tl_ref_x), rcmp("==", tly, tl_ref_y), rcmp("==", trx, tlx + (crop - 1)), rcmp("==", try_, tly), rcmp("==", brx, trx), rcmp("==", bry, tly + (crop - 1)),
+        tl_ref_x, tl_ref_y = cx - xf.Q(Fraction(cw_, 2)) + xf.Q(Fraction(1, 2)), cy - xf.Q(Fraction(ch_, 2)) + xf.Q(Fraction(1, 2))
+        box = And(rcmp("==", tlx, tl_ref_x), rcmp("==", tly, tl_ref_y), rcmp("==", trx, tlx + (cw_ - 1)), rcmp("==", try_, tly), rcmp("==", brx, trx), rcmp("==", bry, tly + (ch_ - 1)),
                   rcmp("==", blx, tlx), rcmp("==", bly, bry), rcmp("==", (tlx + brx) / 2, cx), rcmp("==", (tly + bry) / 2, cy))
         discharge(ex, rep, "B4-crop-box-axis-aligned-spans-crop-1-centres-centred-on-centroid", box, on_sat=lambda m, env: ("crops:box", "the box handed to the crop kernel is not the axis-aligned crop-sized box centred on the centroid", extract(m, env)))
         iv, cv = out["instance"].values(), out["centroid"].values()
@@ -329,7 +328,7 @@ def _run_crops(cfg):
         discharge(ex, rep, "B5-returned-keypoints-and-centroid-are-inputs-minus-box-top-left", reg, on_sat=lambda m, env: ("crops:keypoints", "crop-relative keypoints are not the labels minus the crop's top-left", extract(m, env)))
         w = ex.query([cx < 1, cy > 7])
         rep.witness("centroid-near-border-model", w.status == "sat")
-        rep.sample({"crop": crop, "top_left": str(tlx)[:80]})
+        rep.sample({"crop_hw": [ch_, cw_], "top_left": str(tlx)[:80]})
     rep.witness("sizematcher-path-with-resize-and-pad", True)
     return rep.finish(extra={"ops": sorted(T.OPS_USED)})
 
@@ -484,13 +483,13 @@ def replay(cfg, inputs, obligation):
         bad = tuple(out.shape) != (1, 1, 4, 4) or not torch.equal(out[..., :2, :3], img) or out.sum() != img.sum()
         return bool(bad), f"{out.tolist()}"
     if kind == "crops":
-        crop = cfg["crop"]
+        ch_, cw_ = cfg["crop"]
         c = torch.tensor(inputs["centroid"], dtype=torch.float32)
         inst = torch.tensor(inputs["instance"], dtype=torch.float32)
-        out = ic.generate_crops(torch.rand(1, 1, 8, 8), inst, c, (crop, crop))
+        out = ic.generate_crops(torch.rand(1, 1, 8, 8), inst, c, (ch_, cw_))
         bb = out["instance_bbox"][0]
-        tl = c - crop / 2 + 0.5
-        bad = not torch.allclose(bb[0], tl, atol=1e-4) or not torch.allclose(bb[2], tl + crop - 1, atol=1e-4) or not torch.allclose(out["instance"][0], inst - tl, atol=1e-4) or not torch.allclose(out["centroid"][0], c - tl, atol=1e-4)
+        tl = c - torch.tensor([cw_ / 2, ch_ / 2]) + 0.5
+        bad = not torch.allclose(bb[0], tl, atol=1e-4) or not torch.allclose(bb[2], tl + torch.tensor([cw_ - 1.0, ch_ - 1.0]), atol=1e-4) or not torch.allclose(out["instance"][0], inst - tl, atol=1e-4) or not torch.allclose(out["centroid"][0], c - tl, atol=1e-4)
         return bool(bad), f"bbox {bb.tolist()} instance {out['instance'].tolist()}"
     if kind == "recrop":
         from symx import fakes
